@@ -156,10 +156,16 @@ def judge(ex, cfg, tree, fnd, ev, where):
     for k in sorted(set(files) & set(got_files)):
         n += 1
         want = open(files[k], 'rb').read()
-        if C.sha(want) == got_files[k][1]:
-            continue
         base = os.path.basename(k)
         base = base[:-len('.apparmor.d')] if base.endswith('.apparmor.d') else base
+        if C.sha(want) == got_files[k][1]:
+            # byte-identical to the source: fine unless a manifest names the file and the source header says something else
+            if k.startswith('apparmor.d/') and k.count('/') == 1 and flagged.get(base) and '/groups/_full/' not in files[k]:
+                bl = scan.blocks(want.decode(errors='surrogateescape'))
+                if bl and set(bl[0].flags) != set(flagged[base]):
+                    fnd.report('flags-not-applied ' + base, '%s: manifest sets flags %s on %s but the prepared file is the unchanged source: `%s`' % (where, flagged[base], base, bl[0].header.strip()),
+                               {'config': cfg._asdict(), 'path': k})
+            continue
         got = cfgx.blob(ex.cas, got_files[k]).decode(errors='surrogateescape')
         if k in editable:
             continue
